@@ -1125,6 +1125,7 @@ func calleeWriteGuards(f *types.Func) []string {
 		if !mentionsValueParam(cond) {
 			return true
 		}
+		_ = 0
 		// nil tests of the receiver/parameters themselves
 		ok := true
 		for _, cj := range append(conjuncts(cond), disjuncts(cond)...) {
@@ -1145,6 +1146,34 @@ func calleeWriteGuards(f *types.Func) []string {
 		if !seen[t] {
 			seen[t] = true
 			out = append(out, t)
+		}
+	}
+	// an early exit of the whole function that looks at a field of a parameter (AddNode: n.Id == "")
+	// turns the helper into a filter as well
+	mentionsParamField := func(cond ast.Expr) bool {
+		found := false
+		ast.Inspect(cond, func(n ast.Node) bool {
+			if sel, ok := n.(*ast.SelectorExpr); ok {
+				if id, isId := sel.X.(*ast.Ident); isId {
+					if o := pk.TypesInfo.Uses[id]; o != nil && owned[o] && !(fd.Recv != nil && len(fd.Recv.List) == 1 && len(fd.Recv.List[0].Names) == 1 && o == pk.TypesInfo.Defs[fd.Recv.List[0].Names[0]]) {
+						found = true
+					}
+				}
+			}
+			return true
+		})
+		return found
+	}
+	for _, st := range fd.Body.List {
+		if st.Pos() > writes[0].Pos() {
+			break
+		}
+		if ifs, isIf := st.(*ast.IfStmt); isIf && ifs.Else == nil && terminates(ifs.Body) && mentionsParamField(ifs.Cond) {
+			t := types.ExprString(ifs.Cond)
+			if !seen[t] {
+				seen[t] = true
+				out = append(out, t)
+			}
 		}
 	}
 	// every write must be reached on every path: collect what can prevent the first of them
@@ -1312,4 +1341,130 @@ func locksNotCopied(c *Ctx) {
 		}
 	}
 	c.ok(R, "library-packages", "-", fmt.Sprintf("%d functions inspected, no lock-holding value is copied", n))
+}
+
+// scratchStateByValue: C06 — the line-based sniffers keep per-call scratch state in a table they are
+// handed. What one line leaves behind for the next is exactly what the function stores back into
+// that table (`states[K] = state`); the paths that return a result without storing back leave
+// nothing. A write *through* an entry of the table (a pointer kept in it) persists on every path,
+// including the ones that were written to discard it.
+func scratchStateByValue(c *Ctx) {
+	const R = "scratch-state-by-value"
+	c.rule(R, "the sniff implementations write memory reachable from their scratch-state parameter only by storing an entry into the table itself (a map update on the parameter); no store goes through a value loaded from the table")
+	o := newOrigins(c.P)
+	n := 0
+	for _, fn := range c.P.Funcs {
+		if fn.Pkg == nil || !strings.HasSuffix(fn.Pkg.Pkg.Path(), "/pkg/formats") || fn.Name() != "sniff" || fn.Signature.Recv() == nil {
+			continue
+		}
+		// the parameter of map type
+		idx := -1
+		for j, p := range fn.Params {
+			if _, isMap := p.Type().Underlying().(*types.Map); isMap {
+				idx = j
+			}
+		}
+		if idx < 0 {
+			continue
+		}
+		n++
+		name := fnName(fn)
+		c.sawFunc(name)
+		var deep []mutation
+		if s := o.sums[fn]; s != nil {
+			for _, m := range s.muts {
+				if m.param == idx && m.lvl >= 1 {
+					deep = append(deep, m)
+				}
+			}
+		}
+		if len(deep) > 0 {
+			c.bad(R, name, c.P.Pos(deep[0].pos), describeMuts(c, name, "scratch-state table", deep)+": state written this way persists on the paths that return without storing back, so what an earlier line set (a version found in a quoted string) is combined with what a later line declares")
+		} else {
+			c.ok(R, name, c.P.Pos(fn.Pos()), "the table is written by entry stores only")
+		}
+	}
+	if n == 0 {
+		c.okTrivial(R, "none", "-", "no sniff implementation takes a scratch-state table")
+	}
+}
+
+// distinctFieldTags: C13 — an encoder that labels each optional field with a constant tag must use a
+// different tag per field: with one tag for two fields a value moved from one field to the other
+// encodes the same, so two different messages are Equal and share a checksum.
+func distinctFieldTags(c *Ctx, rule string, encoders ...string) {
+	c.rule(rule, "in an equality encoder the constant tag under which a field is written (the format of the Sprintf that takes exactly that field, or the constant next to the field in a {tag, value} table row) is not used for any other field of the message")
+	for _, name := range encoders {
+		d := c.decl(rule, name)
+		if d == nil {
+			continue
+		}
+		recv, _ := recvAndParam(d)
+		if recv == nil {
+			continue
+		}
+		tagOf := map[string]string{} // field → tag
+		fieldsIn := func(e ast.Expr) []string {
+			var out []string
+			for f := range mentions(d.pkg, e, recv) {
+				out = append(out, f)
+			}
+			return out
+		}
+		clash := ""
+		var clashPos token.Pos
+		record := func(field, tag string, pos token.Pos) {
+			for f, t := range tagOf {
+				if t == tag && f != field && clash == "" {
+					clash = fmt.Sprintf("fields %s and %s are both written under the tag %q", f, field, tag)
+					clashPos = pos
+				}
+			}
+			tagOf[field] = tag
+		}
+		ast.Inspect(d.fd.Body, func(n ast.Node) bool {
+			switch x := n.(type) {
+			case *ast.CallExpr:
+				f, _ := typeutil.Callee(d.pkg.TypesInfo, x).(*types.Func)
+				if f == nil || f.FullName() != "fmt.Sprintf" || len(x.Args) < 2 {
+					return true
+				}
+				fv, ok := constOf(d.pkg, x.Args[0])
+				if !ok || !fv.isStr() {
+					return true
+				}
+				var fs []string
+				for _, a := range x.Args[1:] {
+					fs = append(fs, fieldsIn(a)...)
+				}
+				if len(fs) == 1 {
+					record(fs[0], fv.str(), x.Pos())
+				}
+			case *ast.CompositeLit:
+				// a table row {tag, value}
+				if t := d.pkg.TypesInfo.TypeOf(x); t != nil {
+					if _, isStruct := t.Underlying().(*types.Struct); !isStruct {
+						return true
+					}
+				}
+				var tags, fs []string
+				for _, el := range x.Elts {
+					if kv, isKV := el.(*ast.KeyValueExpr); isKV {
+						el = kv.Value
+					}
+					if v, ok := constOf(d.pkg, el); ok && v.isStr() {
+						tags = append(tags, v.str())
+						continue
+					}
+					fs = append(fs, fieldsIn(el)...)
+				}
+				if len(tags) == 1 && len(fs) == 1 {
+					record(fs[0], tags[0], x.Pos())
+				}
+			}
+			return true
+		})
+		c.check(clash == "", rule, name, c.P.Pos(clashPos), fmt.Sprintf("%d tagged fields, all tags distinct", len(tagOf)),
+			fmt.Sprintf("%s: %s — the same text in either field gives the same encoding, so messages that differ are Equal and have equal checksums", name, clash))
+	}
 }
